@@ -26,11 +26,12 @@ type StaticWarning struct {
 }
 
 func NewStaticWarning(csvFile *csv.File, kind StaticWarningKind) StaticWarning {
+	// The CSV reader reuses the slice it returns for the next row, so the row content is copied.
 	return StaticWarning{
 		Kind:          kind,
 		File:          csvFile.Name(),
 		RowNumber:     csvFile.RowNumber(),
-		RowContent:    csvFile.RowContent(),
+		RowContent:    append([]string(nil), csvFile.RowContent()...),
 		HeaderContent: csvFile.HeaderContent(),
 	}
 }
